@@ -190,6 +190,9 @@ func parseStops(s string) []int { // "-" = never
 	for _, p := range strings.Split(s, "/") {
 		if p == "-" {
 			out = append(out, -1)
+		} else if strings.HasPrefix(p, "n") { // nJ: a full pass during which, at element J, the SAME sequence value is ranged over completely
+			n, _ := strconv.Atoi(p[1:])
+			out = append(out, -(n + 2))
 		} else {
 			n, _ := strconv.Atoi(p)
 			out = append(out, n)
@@ -211,6 +214,9 @@ func fmtSeq(tag string, full []kv, stops []int) string {
 			fmt.Fprintf(&sb, " %s=%d", e.k, e.v)
 		}
 		passes = append(passes, sb.String())
+		if st <= -2 && len(full) > -(st+2) { // the inner pass ran: it yields everything, and so does the outer one
+			passes = append(passes, sb.String())
+		}
 	}
 	return tag + " " + strings.Join(passes, " | ")
 }
